@@ -221,8 +221,23 @@ def fit_tilt_rule(chk, repo, clause):
 
             def last(k):
                 return k.items[-1] if isinstance(k, Tup) else k
+            def column(a):
+                """(variable, column) of t[k, c] written as t[:, lo:hi][k][j] (row k of a column block): column lo + j"""
+                if a is None or a[0] != 'idx' or not isinstance(a[2], Poly) or a[2].const_value() is None:
+                    return None
+                row = a[1]
+                if row[0] != 'idx':
+                    return None
+                blk = row[1]
+                if blk[0] == 'idx' and isinstance(blk[2], Tup) and len(blk[2]) == 2 and isinstance(blk[2].items[1], Slice) \
+                        and blk[2].items[0] == Slice(nf.NONE, nf.NONE) and isinstance(blk[2].items[1].lo, Poly):
+                    return blk[1], blk[2].items[1].lo + a[2]
+                return None
             rec = xi is not None and yi is not None and xi[0] == 'idx' and yi[0] == 'idx' and \
                 last(xi[2]) == C(1) and last(yi[2]) == C(2) and _same_var(xi[1], coef_var) and _same_var(yi[1], coef_var)
+            if not rec and column(xi) and column(yi):
+                (vx, cx), (vy, cy) = column(xi), column(yi)
+                rec = cx == C(1) and cy == C(2) and _same_var(vx, coef_var) and _same_var(vy, coef_var)
             label = 'segmented' if seg else 'monolithic'
             chk.ob(clause, 'D-index', f.key, f'removes tip and tilt, not piston [{label}]',
                    None if tilt_only is None else bool(tilt_only and piston_off),
